@@ -371,7 +371,7 @@ theorem Tr.cpFunds_eq {b b' : Book} (t : Tr b b') : b'.cpFunds = b.cpFunds := by
   cases t with
   | misc h => exact h.2.2.2.2.1
   | drop v _ _ => rfl
-  | insert v es _ _ _ => rfl
+  | insert v es _ _ _ _ => rfl
   | unlink h _ => rfl
 
 theorem Steps.cpFunds_eq {b b' : Book} (s : Steps b b') : b'.cpFunds = b.cpFunds := by
